@@ -460,6 +460,19 @@ class Folder:
         return frozenset(self.ev(e, env) for e in n.elts)
 
     def e_Dict(self, n, env):
+        if any(k is None for k in n.keys):
+            # {**a, **b, key: v}: later entries override earlier ones; symbolic mappings make the whole display a term that keeps the order
+            parts = []
+            for k, v in zip(n.keys, n.values):
+                parts.append(self.ev(v, env) if k is None else {self.ev(k, env): self.ev(v, env)})
+            if all(isinstance(p, dict) for p in parts):
+                out = {}
+                for p in parts:
+                    out.update(p)
+                return out
+            if self.symbolic:
+                return Sym("dictmerge", parts)
+            raise Refuse("dict display with ** of a non-dict")
         return {self.ev(k, env): self.ev(v, env) for k, v in zip(n.keys, n.values)}
 
     def _comp(self, n, env, emit):
